@@ -422,6 +422,9 @@ def _parse_attribute_name(name: str) -> str:
     first_chars = set(string.ascii_letters) | {"_"}
     if name[0] not in first_chars:
         name = f"_{name}"
+    if name.startswith("__") and not name.endswith("__"):
+        # Such names are mangled by the compiler inside a class body.
+        name = "_" + name.lstrip("_")
     if name in RESERVED_PROPERTIES:
         name = f"{name}_"
     return name
